@@ -73,7 +73,7 @@ K0 ==
     pqs    |-> {},                     \* priority queue content [h, obj, pr]
     pqall  |-> <<>>,                   \* all priority queue handles issued, in order
     flag   |-> <<0, 0>>,               \* data the condition predicates read
-    csub   |-> {},                     \* guards the condition observes
+    csub   |-> [g \in Guards |-> 0],  \* how many times the condition is registered as observer of guard g
     rec    |-> [o \in Guards |-> FALSE],
     rect0  |-> [o \in Guards |-> 0],
     hist   |-> [o \in Guards |-> <<>>] ]
@@ -202,7 +202,9 @@ GuardSignal(S, g) ==
             ELSE LET F == FirstWaiters(S.k, g)
                      x == CHOOSE y \in F : \A z \in F : y.p <= z.p
                  IN GuardSignalPick(S, g, x)
-  IN IF g \in S.k.csub /\ g # GCOND THEN CondSignal(S1) ELSE S1   \* forwarded to the observing condition
+      RECURSIVE Fwd(_, _)
+      Fwd(T, n) == IF n = 0 THEN T ELSE Fwd(CondSignal(T), n - 1)
+  IN IF g # GCOND THEN Fwd(S1, S.k.csub[g]) ELSE S1   \* forwarded to the observing condition, once per registration
 
 (* ---------------------------------------------------------------------- *)
 (* process clean-up routines                                               *)
@@ -460,7 +462,8 @@ Exec1(S, p, in) ==
          LET v == kk.holder[a1] IN
          IF v = 0 THEN Finish(Grab(SC, p, a1), p, SUCCESS, 0)
          ELSE IF kk.prio[p] >= kk.prio[v]
-           THEN Finish(Grab(Sched(SC, "preempt", t, kk.prio[v], v, PREEMPTED), p, a1), p, SUCCESS, 0)
+           THEN \* kicked out: the resource stays occupied, the code records no sample here
+                Finish(SetK(Sched(SC, "preempt", t, kk.prio[v], v, PREEMPTED), [Sched(SC, "preempt", t, kk.prio[v], v, PREEMPTED).k EXCEPT !.holder[a1] = p]), p, SUCCESS, 0)
            ELSE AcquireLoop(SC, p, a1)
     [] op \in {"pacq", "ppre"} -> PoolLoop(SetK(SC, [SC.k EXCEPT !.call[p].rem = a1]), p)
     [] op = "bget" -> BufGetLoop(SetK(SC, [SC.k EXCEPT !.call[p].rem = a1]), p)
@@ -496,7 +499,7 @@ Exec1(S, p, in) ==
          IN Snap(Emit(S1, DoEv(p, in, 0, 0, t)))
     [] op = "start" -> Snap(Emit(Sched(S, "start", t, kk.prio[a1], a1, 0), DoEv(p, in, 0, 0, t)))
     [] op = "rel" ->
-         LET Sf == IF kk.csub # {} THEN Truths(Emit(S, [e |-> "FwdBegin", p |-> p, g |-> a1, t |-> t]), a1) ELSE S
+         LET Sf == IF \E g \in Guards : kk.csub[g] > 0 THEN Truths(Emit(S, [e |-> "FwdBegin", p |-> p, g |-> a1, t |-> t]), a1) ELSE S
              S1 == GuardSignal(Rec(SetK(Sf, [kk EXCEPT !.holder[a1] = 0]), a1), a1)
          IN Snap(Emit(S1, DoEv(p, in, 0, 0, t)))
     [] op = "prel" ->
@@ -520,7 +523,7 @@ Exec1(S, p, in) ==
          LET S1 == CondSignal(Truths(Emit(S, [e |-> "CSigBegin", p |-> p, t |-> t]), 0)) IN
          Snap(Emit(S1, DoEv(p, in, IF S1.k.gq[GCOND] # kk.gq[GCOND] THEN 1 ELSE 0, 0, t)))
     [] op = "setflag" -> Snap(Emit(SetK(S, [kk EXCEPT !.flag[a1 + 1] = a2]), DoEv(p, in, 0, 0, t)))
-    [] op = "csub" -> Snap(Emit(SetK(S, [kk EXCEPT !.csub = @ \cup {IF a1 = 0 THEN 1 ELSE GBUFF}]), DoEv(p, in, 0, 0, t)))
+    [] op = "csub" -> Snap(Emit(SetK(S, [kk EXCEPT !.csub[IF a1 = 0 THEN 1 ELSE GBUFF] = @ + 1]), DoEv(p, in, 0, 0, t)))
     [] op = "ccancel" ->
          IF \E x \in kk.gq[GCOND] : x.p = a1
            THEN LET S1 == Emit(SetK(S, [kk EXCEPT !.gq[GCOND] = {x \in @ : x.p # a1}]), [e |-> "GuardCancel", g |-> GCOND, p |-> a1, t |-> t])
